@@ -42,6 +42,10 @@ ASSUMPTIONS = ['CPython 3.12 with the GIL: C-level dict operations on int/str/tu
                'histories are capped at 16 operations so the linearizability search stays exact']
 
 
+REQUIRED_PROBES = ['lock_contended', 'switch_at_bytecode_inside_cacheutils', 'switch_inside_ring_splice',
+                   'lockfree_read_saw_transient_state']
+
+
 def setup(root):
     L.setup(root)
 
